@@ -42,8 +42,14 @@ WriteOnce(it) ==
         => (IsBitPatch(it, it.wlog[i]) \/ IsBitPatch(it, it.wlog[j]))
 NoWritePastEnd(it) == \A i \in WIdx(it) : it.wlog[i][1] + it.wlog[i][2] <= (it.space + it.pad) * 2048
 
+\* nothing is stored that nothing refers to: a sector inside the volume that is not blank belongs
+\* to one of the objects the independent decoders reach (it.orphans: the others; items of older
+\* harness versions do not carry the field)
+NoOrphanSectors(it) == "orphans" \in DOMAIN it => it.orphans = <<>>
+
 LayoutFailing(it) ==
-    F("NoOverlap", NoOverlap(it)) \cup F("InBounds", InBounds(it))
+    F("NoOrphanSectors", NoOrphanSectors(it))
+    \cup F("NoOverlap", NoOverlap(it)) \cup F("InBounds", InBounds(it))
     \cup F("ExactLength", ExactLength(it)) \cup F("WriteOnce", WriteOnce(it))
     \cup F("NoWritePastEnd", NoWritePastEnd(it))
 
